@@ -373,4 +373,8 @@ func Run[S any](t *testing.T, sp Spec[S]) {
 }
 
 // JoinClasses is a helper for canonical strings.
-func JoinClasses(cl []string) string { s := append([]string{}, cl...); sort.Strings(s); return strings.Join(s, ",") }
+func JoinClasses(cl []string) string {
+	s := append([]string{}, cl...)
+	sort.Strings(s)
+	return strings.Join(s, ",")
+}
